@@ -2,6 +2,7 @@ package core
 
 import (
 	"fmt"
+	"math"
 	"reflect"
 	"strconv"
 	"strings"
@@ -55,12 +56,22 @@ func ImportToX(e *env.Env) {
 			return rv.Convert(nt).Int()
 		}
 		if rv.Kind() == reflect.String {
-			i, err := strconv.ParseInt(v.(string), 10, 64)
+			i, err := strconv.ParseInt(rv.String(), 10, 64)
 			if err == nil {
 				return i
 			}
-			f, err := strconv.ParseFloat(v.(string), 64)
+			if !isDecimalNumeral(rv.String()) {
+				return 0
+			}
+			f, err := strconv.ParseFloat(rv.String(), 64)
 			if err == nil {
+				// (out of range: the nearest int64, as strconv.ParseInt gives it)
+				if f >= 9223372036854775808.0 {
+					return math.MaxInt64
+				}
+				if f < -9223372036854775808.0 {
+					return math.MinInt64
+				}
 				return int64(f)
 			}
 		}
@@ -81,9 +92,10 @@ func ImportToX(e *env.Env) {
 		if rv.Type().ConvertibleTo(nt) {
 			return rv.Convert(nt).Float()
 		}
-		if rv.Kind() == reflect.String {
-			f, err := strconv.ParseFloat(v.(string), 64)
-			if err == nil {
+		if rv.Kind() == reflect.String && isDecimalNumeral(rv.String()) {
+			f, err := strconv.ParseFloat(rv.String(), 64)
+			if err == nil || math.IsInf(f, 0) {
+				// (out of range: the infinity strconv gives together with its range error)
 				return f
 			}
 		}
@@ -168,4 +180,10 @@ func toSlice(from []interface{}, ptr interface{}) {
 	}
 	// Ok now assign our slice to the target pointer
 	obj.Set(slice)
+}
+
+// isDecimalNumeral reports whether s can be a decimal numeral: strconv.ParseFloat
+// also reads hexadecimal floats, digit-separating underscores, "Inf" and "NaN".
+func isDecimalNumeral(s string) bool {
+	return s != "" && strings.Trim(s, "0123456789+-.eE") == ""
 }
